@@ -68,15 +68,21 @@ def p1_worker(args):
             continue
         open(path, "wb").write(mutated)
         t0 = time.time()
+        # own process group, so that a hanging test run can be removed
+        # together with its children
+        pr = subprocess.Popen(
+            "cd %s && PYTHONPATH=%s/src PYTHONDONTWRITEBYTECODE=1 "
+            "/venv/bin/python -m pytest -x -q -p no:cacheprovider "
+            "--timeout=60 2>&1 | tail -3" % (wt, wt), shell=True,
+            stdout=subprocess.PIPE, stderr=subprocess.STDOUT, text=True,
+            start_new_session=True)
         try:
-            r = subprocess.run(
-                "cd %s && PYTHONPATH=%s/src PYTHONDONTWRITEBYTECODE=1 "
-                "/venv/bin/python -m pytest -x -q -p no:cacheprovider "
-                "--timeout=60 2>&1 | tail -3" % (wt, wt), shell=True,
-                capture_output=True, text=True, timeout=400)
-            tail = r.stdout
+            tail, _ = pr.communicate(timeout=400)
             res = "pass" if "111 passed" in tail else "fail"
         except subprocess.TimeoutExpired:
+            import signal
+            os.killpg(pr.pid, signal.SIGKILL)
+            pr.communicate()
             res = "timeout"
         open(path, "wb").write(raw)
         out.append(dict(m, tests=res, secs=round(time.time() - t0, 1)))
